@@ -6,9 +6,12 @@
 
     Float and base-0 integer parsing are library functions: the theorems hold for EVERY environment [e] and
     every float formatting [fmt] such that the library parser reads the server's formatting back
-    ([fmt_parse], [fmt_nonempty], [pi0_print] — Section hypotheses, discharged by nothing here and listed in
+    ([fmt_parse], [fmt_nonempty] — Section hypotheses, discharged by nothing here and listed in
     the SPEC as assumptions; the correspondence run exercises them with Go's FormatFloat / ParseFloat).
-    Decimal integers are proved outright ([parse_int10 (print_Z z) = Some z]). *)
+    Integers in strings are concrete: every integer-reading accessor reads base ten ([parse_int10], the
+    model of strconv.ParseInt(s, 10, 64)); the round trip with the canonical printing, the value of EVERY
+    decimal spelling (sign, leading zeros) and the rejection of everything else are proved outright.
+    (AsIntMap used base 0 before its repair: [C16_int_map_before_fix_refuted].) *)
 From Coq Require Import String List NArith ZArith Bool.
 Require Import RV.Model.Base RV.Model.AccBase RV.Model.Accessors RV.Proofs.DecimalProofs RV.Proofs.AccFaithful.
 Import ListNotations.
@@ -37,6 +40,45 @@ Proof. exact string_faithful. Qed.
 
 Theorem C16_bool_faithful : forall x, to_bool (boolean x) = ROk x /\ as_bool (boolean x) = ROk x.
 Proof. exact bool_faithful. Qed.
+
+(** every decimal spelling is read as its decimal value: optional sign, then digits — leading zeros are zeros
+    (no octal), and out-of-range values are rejected *)
+Theorem C16_decimal_spellings : forall sg ds, ds <> [] -> Forall (fun c => is_digit c = true) ds ->
+  parse_int10 (sign_bytes sg ++ ds) = if in_int64 (signed sg (dec_value ds)) then Some (signed sg (dec_value ds)) else None.
+Proof. exact parse_int10_decimal. Qed.
+
+(** … and nothing else is an integer: no digits after the sign, or any byte that is not a digit
+    (so no 0x / 0b / 0o prefix, no '_' separator, no blank, no exponent) *)
+Theorem C16_non_decimal_rejected : forall sg body,
+  (body = [] \/ exists c, In c body /\ is_digit c = false) ->
+  (sg = None -> match body with c :: _ => (c =? 45) = false /\ (c =? 43) = false | [] => True end) ->
+  parse_int10 (sign_bytes sg ++ body) = None.
+Proof. exact parse_int10_rejects. Qed.
+
+(** the integer-reading accessors return the decimal reading of every element, whatever its spelling … *)
+Theorem C16_int_spelled_faithful : forall s z t (xs : list (bytes * Z)) (ps : list (bytes * (bytes * Z))) tm,
+  (t = tBlobString \/ t = tSimpleString) -> (tm = tArray \/ tm = tSet \/ tm = tMap) ->
+  (parse_int10 s = Some z -> as_int64 (MStr t s None) = ROk z) /\
+  (Forall (fun sz => fst sz <> [] /\ parse_int10 (fst sz) = Some (snd sz)) xs ->
+     as_int_slice (arr (map (fun sz => blob (fst sz)) xs)) = ROk (map snd xs)) /\
+  (Forall (fun kv => fst (snd kv) <> [] /\ parse_int10 (fst (snd kv)) = Some (snd (snd kv))) ps ->
+     as_int_map (MArr tm (flat blob (fun sz => blob (fst sz)) ps) None) = ROk (set_all (map (fun kv => (fst kv, snd (snd kv))) ps) [])).
+Proof.
+  intros s z t xs ps tm Ht Htm. split; [intro H; rewrite as_int64_str by exact Ht; now rewrite H|].
+  split; [apply int_slice_spelled|now apply int_map_spelled].
+Qed.
+
+(** … and report a number error for an element that is not a decimal integer *)
+Theorem C16_int_non_decimal_error : forall s k t, s <> [] -> parse_int10 s = None -> (t = tArray \/ t = tSet \/ t = tMap) ->
+  as_int64 (blob s) = RErr ENum /\ as_int_slice (arr [blob s]) = RErr ENum /\
+  as_int_map (MArr t [blob k; blob s] None) = RErr ENum.
+Proof. exact int_accessors_reject. Qed.
+
+(** the original AsIntMap used strconv.ParseInt(s, 0, 64): a value "0100" came back as 64 *)
+Theorem C16_int_map_before_fix_refuted : forall pi0 : bytes -> option Z, pi0 (b "0100") = Some 64%Z ->
+  as_int_map_before_fix pi0 (arr [blob (b "mode"); blob (b "0100")]) = ROk [(b "mode", 64%Z)] /\
+  as_int_map (arr [blob (b "mode"); blob (b "0100")]) = ROk [(b "mode", 100%Z)].
+Proof. exact int_map_before_fix_octal. Qed.
 
 (** ---- arrays keep every element in order ---- *)
 Theorem C16_array_faithful : forall l t, (t = tArray \/ t = tSet) -> to_array (MArr t l None) = ROk l.
@@ -127,7 +169,6 @@ Variable e : env.
 Variable fmt : N -> bytes.
 Hypothesis fmt_parse : forall f, pf e (fmt f) = (f, true).
 Hypothesis fmt_nonempty : forall f, fmt f <> [].
-Hypothesis pi0_print : forall z, (int64_min <= z <= int64_max)%Z -> pi0 e (print_Z z) = Some z.
 
 Theorem C16_float_faithful : forall f,
   to_float64 e (dbl fmt f) = ROk f /\ as_float64 e (dbl fmt f) = ROk f /\
@@ -140,7 +181,7 @@ Proof. intros; apply float_slice_faithful; assumption. Qed.
 
 Theorem C16_int_map_faithful : forall (ps : list (bytes * (bool * Z))) t, (t = tArray \/ t = tSet \/ t = tMap) ->
   Forall (fun kv => (int64_min <= snd (snd kv) <= int64_max)%Z) ps ->
-  as_int_map e (MArr t (flat blob (fun bz => enc_int (fst bz) (snd bz)) ps) None) =
+  as_int_map (MArr t (flat blob (fun bz => enc_int (fst bz) (snd bz)) ps) None) =
   ROk (set_all (map (fun kv => (fst kv, snd (snd kv))) ps) []).
 Proof. intros; apply int_map_faithful; assumption. Qed.
 
@@ -179,6 +220,11 @@ End Floats.
 
 Print Assumptions C16_decimal_roundtrip.
 Print Assumptions C16_int_faithful.
+Print Assumptions C16_decimal_spellings.
+Print Assumptions C16_non_decimal_rejected.
+Print Assumptions C16_int_spelled_faithful.
+Print Assumptions C16_int_non_decimal_error.
+Print Assumptions C16_int_map_before_fix_refuted.
 Print Assumptions C16_int_string_faithful.
 Print Assumptions C16_string_faithful.
 Print Assumptions C16_bool_faithful.
@@ -210,7 +256,7 @@ Print Assumptions C16_geosearch_faithful.
 Definition ex_fmt (f : N) : bytes := 102 :: print_N f.                 (* "f<bits>" *)
 Definition ex_env : env :=
   mkEnv (fun s => match s with 102 :: r => match parse_uint10 r with Some n => (n, true) | None => (0, false) end | _ => (0, false) end)
-        (fun _ => 0) (fun s => parse_int10 s) (fun _ => true).
+        (fun _ => 0) (fun _ => true).
 
 Example C16_nonvacuous_zscores :
   as_zscores ex_env (arr (flat_map (enc_zscore ex_fmt false) [(b "a", 7); (b "b", 9)])) = ROk [(b "a", 7); (b "b", 9)] /\
@@ -230,4 +276,13 @@ Example C16_nonvacuous_xread_geo_map :
   as_geosearch ex_env (arr (map (enc_loc ex_fmt false) [(b "p", Some 11, Some 5%Z, Some (21, 22)); (b "q", None, None, None)])) =
     ROk [mkGeo (b "p") 21 22 11 5; mkGeo (b "q") 0 0 0 0] /\
   as_int64 (blob (print_Z (-9223372036854775808))) = ROk (-9223372036854775808)%Z.
+Proof. vm_compute. repeat split; reflexivity. Qed.
+
+Example C16_nonvacuous_spellings :
+  as_int64 (blob (b "0100")) = ROk 100%Z /\ as_int64 (blob (b "-0755")) = ROk (-755)%Z /\ as_int64 (blob (b "+09")) = ROk 9%Z /\
+  as_int64 (blob (b "0x1F")) = RErr ENum /\ as_int64 (blob (b "1_000")) = RErr ENum /\ as_int64 (blob (b "0b11")) = RErr ENum /\
+  as_int64 (blob (b "9223372036854775808")) = RErr ENum /\
+  as_int_slice (arr [blob (b "010"); blob (b "-0")]) = ROk [10%Z; 0%Z] /\
+  as_int_map (mapm [blob (b "k"); blob (b "0017")]) = ROk [(b "k", 17%Z)] /\
+  as_int_map (mapm [blob (b "k"); blob (b "0o17")]) = RErr ENum.
 Proof. vm_compute. repeat split; reflexivity. Qed.
